@@ -489,6 +489,17 @@ pub fn proxy_outcome(c: &ProxyCase) -> Outcome {
                                 want.len()
                             );
                         }
+                        // order per direction: the replies one worker wrote for this client (it
+                        // echoes in the order it received) reach the client in that order, also
+                        // when the client pipelines and replies of several workers interleave
+                        let tag_of = |m: &Frames, pos: usize| -> Option<usize> { m.get(pos).and_then(|t| std::str::from_utf8(t).ok()).and_then(|t| t.split('-').nth(1)).and_then(|x| x.parse().ok()) };
+                        for (wi, wm) in at_workers.iter().enumerate() {
+                            let handled: Vec<usize> = wm.iter().filter(|x| x.first() == Some(&ids[i])).filter_map(|x| tag_of(x, if plain { 1 } else { 2 })).collect();
+                            let seen: Vec<usize> = m.iter().filter_map(|x| tag_of(x, if plain { 0 } else { 1 })).filter(|k| handled.contains(k)).collect();
+                            if seen.windows(2).any(|w| w[0] >= w[1]) {
+                                fail!(f, "C15/back-to-front-reordered", "client {} received the replies worker {} wrote for it in order {:?} (the worker handled {:?} in that order)", i, wi, seen, handled);
+                            }
+                        }
                         at_clients.push(m);
                     }
                     Err(e) => {
